@@ -984,10 +984,20 @@ func (s *Sess) emitAxioms() {
 			if sf.Ret != "bool" {
 				ax.Args[0].S = "=="
 			}
+			if len(sf.Params) == 0 {
+				ax = ax.Args[0]
+			}
 			c := &CEnv{s: s, vars: map[string]Val{}, heap: s.entry, pkg: s.eng.typesPkg(sf.Pkg), imports: s.eng.cs.Imports[sf.File]}
+			s.heapReads = 0
 			f, err := c.evalAssume(ax)
 			if err != nil {
 				s.unsupp("definition of opaque %s: %v", name, err)
+				continue
+			}
+			if s.heapReads > 0 {
+				// an opaque function is applied to its arguments only: a definition that reads the
+				// heap would be pinned to the entry state and hold in every later state
+				s.detached("opaque spec function %s reads the heap: define it with 'spec func' instead", name)
 				continue
 			}
 			s.axioms = append(s.axioms, "(assert "+f+") ; definition of "+name)
